@@ -52,6 +52,7 @@ impl InstructionGenerator {
             // run matched CASE block statements
             self.visit(statements);
             // jump out of SELECT
+            self.mark_statement_address(); // to be able to resume after an error at the last statement
             self.jump(labels::end_select(), pos);
         }
     }
